@@ -850,6 +850,25 @@ def detect_oracle(S):
     return bad
 
 
+# ---------------- chunked pipe with small first chunks (props/C15/chunkfeed.py) ---------
+def chunk_oracle(S):
+    """every arrival through a pipe whose first chunk is shorter than / around the codec magics, and plain archives with a
+    magic-like first name cut inside the first header: same image as the regular-file arrival"""
+    import chunkfeed as CF
+    D = _load_detect()
+    rnd = random.Random(S.ctx.seed * 6151 + 155)
+    only = None
+    if S.replay_chunk is not None:
+        rp = S.replay_chunk
+        only = dict(tar=base64.b64decode(rp["tar_b64"]), input=base64.b64decode(rp["input_b64"]), first=rp["first"], rest=rp["rest"],
+                    family=rp.get("family"), arrival=rp.get("arrival"))
+    bad, stats = CF.matrix(S, D, compress_member, compress_split, mk_tar, sha, b64, ENV, rnd, only=only)
+    S.ctx.coverage["evaluations"] = S.ctx.coverage.get("evaluations", 0) + stats["cells"] + stats["regular_file_runs"]
+    S.ctx.coverage["distinct_nontrivial"] = S.ctx.coverage.get("distinct_nontrivial", 0) + stats["compared"]
+    S.ctx.coverage.setdefault("distribution", {})["chunked_pipe_matrix"] = stats
+    return bad
+
+
 # ---------------- main ------------------------------------------------------
 def load_corpus():
     p = os.path.join(HERE, "corpus.txt")
@@ -901,12 +920,16 @@ def run(ctx):
     S.replay_real = None
     S.replay_tool = None
     S.replay_detect = None
-    do_toy = do_real = do_tool = do_detect = True
+    S.replay_chunk = None
+    do_toy = do_real = do_tool = do_detect = do_chunk = True
     if ctx.replay:
         rp = json.load(open(ctx.replay))
         k = rp.get("kind", "")
-        do_toy = do_real = do_tool = do_detect = False
-        if k == "tool-detect":
+        do_toy = do_real = do_tool = do_detect = do_chunk = False
+        if k == "tool-chunked":
+            S.replay_chunk = rp
+            do_chunk = True
+        elif k == "tool-detect":
             S.replay_detect = rp
             do_detect = True
         elif k.startswith("toy") and rp.get("line"):
@@ -937,12 +960,13 @@ def run(ctx):
             S.replay_tool = [(files, tar, "replay")]
             do_tool = True
         else:
-            do_toy = do_real = do_tool = do_detect = True
+            do_toy = do_real = do_tool = do_detect = do_chunk = True
 
     parts = os.environ.get("C15_PARTS")
     if parts:
         do_toy, do_real, do_tool = ("toy" in parts and do_toy), ("real" in parts and do_real), ("tool" in parts and do_tool)
         do_detect = "detect" in parts and do_detect
+        do_chunk = "chunk" in parts and do_chunk
     tie_bad, prop_bad = ([], [])
     if do_toy:
         tie_bad, prop_bad = toy_tie(S)
@@ -957,7 +981,9 @@ def run(ctx):
     ctx.log("tool oracle done: %d failures" % len(tool_bad))
     detect_bad = detect_oracle(S) if do_detect else []
     ctx.log("format detection matrix done: %d failures" % len(detect_bad))
-    tool_bad = detect_bad + tool_bad
+    chunk_bad = chunk_oracle(S) if do_chunk else []
+    ctx.log("chunked pipe matrix done: %d failures" % len(chunk_bad))
+    tool_bad = chunk_bad + detect_bad + tool_bad
 
     seen = set()
     for l, (sig, why), rc, rm in prop_bad:
@@ -1001,6 +1027,10 @@ def run(ctx):
         "format detection matrix: header flavour {v7, POSIX, GNU, POSIX behind a zero record} x arrival {plain,gzip,xz,zstd,bzip2} x first member "
         "name {neutral, 5 names beginning with a codec magic, 3 near misses} = 180 cells against the plain POSIX archive of the same entries "
         "(5 v7/plain/magic cells are ambiguous by construction and not compared). "
+        "chunked pipe matrix: arrival {plain, gzip/xz/zstd/bzip2 x single/two members} x first chunk {1,2,3,5,7} bytes handed over alone "
+        "(writer polls FIONREAD until the reader took it) x later chunks {1,511,4096}, and plain POSIX/GNU archives whose first name "
+        "begins with a codec magic x first chunk {3,6,100,256,257,262,263,511} (inside the first header, around the ustar probe): image "
+        "equal to the regular-file arrival of the plain archive. "
         "non-trivial = non-empty plain data / magic hit" % ctx.seed)
 
 
